@@ -121,6 +121,7 @@ impl forwarder::UdpDatagramPipeShared for DatagramTransceiverShared {
             }
             Err(socks5_client::Error::Authentication(x)) => {
                 self.associations.lock().unwrap().clear();
+                self.wake_source();
                 return Err(io::Error::new(
                     ErrorKind::Other,
                     format!("Authentication error: {}", x),
@@ -156,8 +157,19 @@ impl forwarder::UdpDatagramPipeShared for DatagramTransceiverShared {
             x.peers.remove(&meta.source);
             if !x.peers.is_empty() {
                 associations.insert(meta.destination, x);
+            } else {
+                self.wake_source();
             }
         }
+    }
+}
+
+impl DatagramTransceiverShared {
+    /// The source may be waiting on futures that share the sockets of associations which have
+    /// just been dropped. Unless it is woken to build its list anew, their relay sockets and
+    /// control connections stay open until something else happens on the multiplexer.
+    fn wake_source(&self) {
+        let _ = self.new_socket_tx.try_send(());
     }
 }
 
